@@ -24,9 +24,41 @@ class ProbeFailure(Exception):
     pass
 
 
+def _plain(x):
+    """a deep, JSON-shaped copy (tuples become lists): what was seen at this moment, not a reference to it"""
+    import json
+    return json.loads(json.dumps(x, default=lambda o: list(o) if isinstance(o, (set, frozenset, tuple)) else repr(o)))
+
+
+def make_iobox(name, beh, ctx):
+    """tickit's own IoBoxDevice, observed: every update is logged with deep copies of what it was given and what
+    it returned; the harness writes to it (as an adapter would) through ctx['devices'][name].write"""
+    from tickit.devices.iobox import IoBoxDevice
+
+    class ObservedIoBox(IoBoxDevice):
+        def __init__(self):
+            super().__init__()
+            self._vn = 0
+
+        def update(self, time, inputs):
+            n = self._vn
+            self._vn += 1
+            loop = ctx["loop"]
+            ev = ctx["trace"].log("update", comp=name, time=int(time), inputs=_plain(dict(inputs)), idx=n, real=loop.now_ns(), step=loop.step)
+            upd = super().update(time, inputs)
+            ev["outs"] = _plain(dict(upd.outputs))
+            ev["call_at"] = None if upd.call_at is None else int(upd.call_at)
+            return upd
+    d = ObservedIoBox()
+    ctx.setdefault("devices", {})[name] = d
+    return d
+
+
 def make_device(name, beh, ctx):
     from tickit.core.device import Device, DeviceUpdate
     from tickit.core.typedefs import SimTime
+    if beh.get("iobox"):
+        return make_iobox(name, beh, ctx)
 
     class ProbeDevice(Device):
         def __init__(self):
@@ -358,6 +390,9 @@ def run_scenario(scn, *, bus="sync", chooser=None, seed=0, max_steps=None, use_s
                 # the adapter does some work before it raises (real time passes inside this loop iteration,
                 # so timers that become due meanwhile have not fired yet when the interrupt is handled)
                 loop.advance(st["pre_cost"])
+            if st.get("write") is not None:
+                # an adapter writes to the IoBox device and then interrupts
+                ctx["devices"][st["comp"]].write(st["write"][0], st["write"][1])
             await do_interrupt(st["comp"])
 
         async def do_interrupt(c):
